@@ -234,9 +234,16 @@ inductive Ev
   | lateFailure (f : Fault)  -- ONE NodeClaim of the pool that could not be launched, looked at again only after the
                              -- registration timeout has passed as well (the controller was not running in between)
   | noise       -- anything that is not this pool's: another pool's outcome or edit, a NodeClaim that
-                -- carries the pool's name but is owned by another NodePool object (`!found → return nil`)
+                -- carries the pool's name but is owned by another NodePool object (`!found → return nil`),
+                -- another writer of the NodePool's status (nodepool.readiness writing NodeClassReady, also from
+                -- an out-of-date copy of the NodePool: every status writer patches under the optimistic lock, a
+                -- stale write is answered 409 and redone on the current object)
   | poolEdit (f : Fault)     -- NodePool spec edited (generation + 1), then reconciled
   | classEdit (f : Fault)    -- NodeClass spec edited (generation + 1), then the pool reconciled
+  | classReplace (g : Nat) (f : Fault)
+                -- the NodeClass object is replaced by one whose `metadata.generation` is `g` (deleted and re-created
+                -- under the same name: g = 1, i.e. usually LOWER than the generation observed before; or re-created
+                -- and edited before the NodePool is reconciled again), then the pool reconciled
   | restart     -- process restart (a new `State`), then the pool reconciled
   | resync      -- the pool reconciled although nothing changed
 deriving Repr, DecidableEq
@@ -252,6 +259,7 @@ def step (p : Pool) : Ev → Pool
   | .noise => p
   | .poolEdit f => reconcileF { p with gen := p.gen + 1 } f
   | .classEdit f => reconcileF { p with classGen := p.classGen + 1 } f
+  | .classReplace g f => reconcileF { p with classGen := g } f
   | .restart => reconcile { p with t := Tracker.new }
   | .resync => reconcile p
 
